@@ -78,9 +78,17 @@ TCert == /\ Rec[l].e = "cert"
               ELSE PropCert(Rec[l].c, Rec[l].verdict, Rec[l].cid_ok, Rec[l].data_ok)
          /\ UNCHANGED <<cfg, sizes, q, got, last, sent>>
 
+\* ---- certmsg segments: one inbound message of several blocks through on_message_received;
+\* delivered[j] = [d, c]: whose bytes were delivered, whose own (prefix, bytes) the reported
+\* CID equals when recomputed independently (0: nobody's)
+TCertMsg == /\ Rec[l].e = "certmsg"
+            /\ Rec[l].out = "ok"
+            /\ PropMsg(Rec[l].kinds, Rec[l].delivered)
+            /\ UNCHANGED <<cfg, sizes, q, got, last, sent>>
+
 TNext == /\ l <= Len(Rec)
          /\ l' = l + 1
-         /\ (TReset \/ TExtract \/ TEnc \/ TMsg \/ TDone \/ TCert)
+         /\ (TReset \/ TExtract \/ TEnc \/ TMsg \/ TDone \/ TCert \/ TCertMsg)
 
 TSpec == TInit /\ [][TNext]_tvars
 
